@@ -44,10 +44,25 @@ def obj (k : Kind) (s1 s2 : Str) : String :=
       reparse k ((dash k v).filter (· != '-'))] ++ second)
 
 /-- `classify <s>`: `macaddress.parse(s, MAC, EUI64)` as used by `MACEUISearch` -/
-def classify (s : Str) : String :=
-  match parse [eui48, eui64] s with
-  | .ok (v, c) => String.ofList c.name ++ " " ++ toString v
+def classifyAns (s : Str) : String :=
+  match classify s with
+  | .ok (k, v) => String.ofList k.cls.name ++ " " ++ toString v
   | .error e => errName e
+
+/-- `w` = `MACObj` / `EUI64Obj`, `p` = plain `macaddress.EUI48` / `EUI64` -/
+def mkObj (k : Kind) (form : String) (s : Str) : Option (Except Err Obj) :=
+  match form with
+  | "w" => some (match parseObj k s with | .ok v => .ok (.wrapped k v) | .error e => .error e)
+  | "p" => some (match parse [k.cls] s with | .ok (v, _) => .ok (.plain k v) | .error e => .error e)
+  | _ => none
+
+/-- `xeq <kind1> <w|p> <s1> <kind2> <w|p> <s2>`: `==` and `!=` between any two objects -/
+def xeq (a b : Option (Except Err Obj)) : String :=
+  match a, b with
+  | some (.ok x), some (.ok y) => tf (objEq x y) ++ "|" ++ tf (!(objEq x y))
+  | some (.error e), some _ => errName e
+  | some _, some (.error e) => errName e
+  | _, _ => "bad-request"
 
 def handle : List String → String
   | ["obj", k, a, b] =>
@@ -56,8 +71,12 @@ def handle : List String → String
     | _, _, _ => "bad-request"
   | ["classify", a] =>
     match decStr a with
-    | some a => classify a
+    | some a => classifyAns a
     | none => "bad-request"
+  | ["xeq", k1, f1, a, k2, f2, b] =>
+    match kindOf k1, kindOf k2, decStr a, decStr b with
+    | some k1, some k2, some a, some b => xeq (mkObj k1 f1 a) (mkObj k2 f2 b)
+    | _, _, _, _ => "bad-request"
   | ["formats", k] =>
     match kindOf k with
     | some k => toString k.cls.size ++ "|" ++ encStrs k.cls.formats
